@@ -457,8 +457,23 @@ func (m *minimiser) minimise(s []workerlib.ExplicitRun) []workerlib.ExplicitRun 
 						cands = append(cands, c2)
 					}
 				}
-				for si := range cur[ri].Trace.Segs {
-					if len(cands) >= 40 {
+				// chunks of segments first (halves, quarters, ...), then single segments
+				nseg := len(cur[ri].Trace.Segs)
+				for parts := 2; parts <= 16 && parts <= nseg && len(cands) < 40; parts *= 2 {
+					per := (nseg + parts - 1) / parts
+					for a := 0; a < nseg && len(cands) < 40; a += per {
+						b := a + per
+						if b > nseg {
+							b = nseg
+						}
+						c := cloneSession(cur)
+						sg := c[ri].Trace.Segs
+						c[ri].Trace.Segs = append(sg[:a:a], sg[b:]...)
+						cands = append(cands, c)
+					}
+				}
+				for si := 0; si < nseg && nseg <= 32; si++ {
+					if len(cands) >= 72 {
 						break
 					}
 					c := cloneSession(cur)
@@ -662,7 +677,7 @@ func processViolation(e *Env, c *Check, fv *foundViolation, limit time.Duration)
 		switch {
 		case first != nil:
 			sig = violSig(first)
-		case fv.V.Task >= 0 && fv.V.Call >= 0 && fv.V.Task < len(session) + len(session[0].Tasks):
+		case fv.V.Task >= 0 && fv.V.Call >= 0 && fv.V.Task < len(session)+len(session[0].Tasks):
 			// the run agrees with fresh truth: then the corpus reference itself was
 			// history dependent. Rebuild the history from the reference pass.
 			call := fv.V.Run.Tasks[fv.V.Task][fv.V.Call]
